@@ -16,6 +16,11 @@ ASSUMPTIONS = [
     "uint64 overflow of the announced total (level*N >= 64) is not modelled.",
     "The float32 rounding of the reported fraction is not covered by progress_monotone (ordered field); the driver "
     "re-computes the fraction in Float32 on sampled handler states and checks monotonicity/[0,1] there.",
+    "Tie of the pool model to the tick rule (controlled mode): extra renders run under the cooperative scheduler of "
+    "harness/poolhook.hpp (one worker at a time, the hook log is the real total order of the segments); the build-phase "
+    "trace with the real SITE_POOL_TICK payloads interleaved is replayed through Pool.step, and Pool.tickOf "
+    "(LibfiveModel/PoolTicks.lean, the definition pool_ticks_complete / pool_ticks_monotone_bounded are about) must give, "
+    "event by event and per worker, exactly the payload of that worker's next real tick; the sum must be the announced total.",
     "Handler state machine: std::async/std::future/timed_mutex are modelled (thread creation, join, ownership); the "
     "unlock of a mutex not owned by the caller on every second finish() is recorded (second_finish_unlocks_foreign) "
     "but is not observable as a crash or deadlock on glibc.",
@@ -96,6 +101,68 @@ def gen_cases(rng, n, tier):
     return cases, lines
 
 
+def gen_controlled(rng, n, first_id):
+    """extra renders under the cooperative scheduler (pool trace + tick payloads -> Pool.step / Pool.tickOf)"""
+    cases, lines = [], []
+    fixed = [("dc", 3, 2, "S 1.3 0.1 0.2 0.05", 2), ("simplex", 3, 1, "S 1.3 0.1 0.2 0.05", 1), ("hybrid", 3, 2, "T 1.1 0.4", 3),
+             ("dc", 2, 3, "S 1.0 0.1 0.2 0", 2), ("dc", 3, 3, "D S 1.5 0 0 0 S 0.9 0.3 0.2 0.1", 4), ("hybrid", 2, 4, "S 1.2 0 0 0", 8),
+             ("dc", 3, 2, "E", 2), ("simplex", 3, 0, "S 1.0 0 0 0", 2)]
+    for k in range(n):
+        if k < len(fixed):
+            alg, dim, lvl, shape, workers = fixed[k]
+        else:
+            dim = 2 if rng.random() < 0.3 else 3
+            alg = rng.choice(["dc", "simplex", "hybrid"])
+            lvl = rng.choice([1, 2, 2, 3]) if dim == 3 else rng.choice([1, 2, 3, 4, 5])
+            if alg != "dc" and dim == 3 and lvl == 3:
+                lvl = 2
+            shape = gen_shape(rng)
+            workers = rng.choice([1, 2, 3, 4, 8])
+        half = 2.0
+        off = [rng.uniform(-0.3, 0.3) for _ in range(3)]
+        lo = [off[j] - half for j in range(3)]
+        hi = [off[j] + half for j in range(3)]
+        if dim == 2:
+            lo[2] = hi[2] = 0.0
+        minfeat = (2 * half) / (2 ** lvl) * rng.uniform(1.01, 1.9) if lvl > 0 else 100.0
+        c = dict(alg=alg, dim=dim, level=lvl, shape=shape, id=first_id + k, workers=workers, minfeat=minfeat,
+                 maxerr=rng.choice([1e-8, -1, 1e-2]), seed=rng.randrange(1, 10 ** 6), yield_p=0.0, region=lo + hi, mode="controlled")
+        cases.append(c)
+        lines.append("case %d dim %d alg %s workers %d minfeat %.6f maxerr %g seed %d yield 0 mode controlled region %s shape %s" % (
+            c["id"], dim, alg, workers, minfeat, c["maxerr"], c["seed"], " ".join("%.4f" % v for v in c["region"]), shape))
+    return cases, lines
+
+
+def pool_tokens(ev):
+    """build-phase hook events of a controlled-mode render -> tokens of Driver/C11.lean's pool vocabulary, plus
+    t<w>:<payload> for every real tick (same digestion as tools/checks/c11.py, phase 1)"""
+    wmap, toks, pend_push, nticks = {}, [], {}, 0
+    for w in ev:
+        tid, site, a, b, cid = int(w[1]), w[2], int(w[3]), int(w[4]), int(w[5])
+        if not site.startswith("pool-") or site == "pool-announce":
+            continue
+        wi = wmap.setdefault(tid, len(wmap))
+        if wi in pend_push and site != "pool-push-local":
+            toks.append("u%d:%d:0" % (wi, pend_push.pop(wi)))
+        if site == "pool-loop":
+            toks.append("l%d" % wi)
+        elif site == "pool-pop":
+            toks.append("p%d:%d" % (wi, cid))
+        elif site == "pool-push":
+            pend_push[wi] = cid
+        elif site == "pool-push-local":
+            toks.append("u%d:%d:1" % (wi, pend_push.pop(wi)))
+        elif site == "pool-eval":
+            toks.append("e%d:%s" % (wi, "atf"[b]))
+        elif site == "pool-collect":
+            toks.append("c%d:%d" % (wi, a))
+        elif site == "pool-tick":
+            toks.append("t%d:%d" % (wi, a)); nticks += 1
+        elif site == "pool-exit":
+            toks.append("x%d" % wi)
+    return toks, nticks
+
+
 def gen_life(rng, n):
     fixed = ["start next5 tick5 finish finish destroy", "start destroy", "start next5 tick2 destroy", "destroy",
              "start next3 tick3 next2 tick2 next1 tick1 finish finish finish", "start finish finish",
@@ -141,6 +208,7 @@ def digest_case(lines):
     cid, dim, alg, workers = head[1], int(head[3]), head[5], int(head[7])
     ev = [l.split() for l in lines if l.startswith("e ")]
     info = {"id": cid, "dim": dim, "alg": alg, "workers": workers, "events": len(ev), "complete": lines[-1] == "end"}
+    info["mode"] = head[9] if len(head) > 9 else "free"
     kids, kind, level = {}, {}, {}
     root = L = ann = None
     ticks, walk_ticks, walk_ann = [], 0, None
@@ -190,6 +258,12 @@ def digest_case(lines):
         emit(root, L)
     out.append("shape " + " ".join(toks))
     out.append("ticks %d %s" % (len(ticks), " ".join("%d %d %d" % (a, level.get(c, 0), b) for a, b, c in ticks)))
+    if info["mode"] == "controlled" and lines[-1] == "end":
+        ptoks, pticks = pool_tokens(ev)
+        info.update(pool_tokens=len(ptoks), pool_ticks=pticks)
+        if ptoks and len(ptoks) <= 60000:
+            out.append("pooltrace " + " ".join(ptoks))
+            info["pool_replayed"] = True
     ph = [l for l in lines if l.startswith("phases ")]
     phases = []
     if ph:
@@ -233,6 +307,9 @@ def run(rep, tier, seed, replay=None):
     n = 70 if tier == "quick" else 600
     cases, lines = gen_cases(rng, n, tier)
     life = gen_life(rng, 24 if tier == "quick" else 200)
+    # controlled-mode renders for the pool/tick tie; drawn after everything else so that the cases above are unchanged
+    ccases, clines = gen_controlled(rng, 28 if tier == "quick" else 240, len(cases))
+    cases, lines = cases + ccases, lines + clines
     work = os.path.join(common.BUILD, "work")
     os.makedirs(work, exist_ok=True)
     pf = os.path.join(work, "c20-%d-%s.cases" % (seed, tier))
@@ -308,6 +385,15 @@ def run(rep, tier, seed, replay=None):
         if cid in found:
             continue
         found.add(cid)
+        if " poolticks" in m:
+            rep.violation("model/implementation correspondence broken (stream C20.poolticks): %s" % m[:300],
+                          {"kind": "correspondence", "stream": "C20 pool trace + tick payloads (LibfiveModel/Pool.lean, PoolTicks.lean: Pool.step / Pool.tickOf)",
+                           "verdict": m, "driver_input": drv_by_case.get(cid), "case_line": by_line.get(cid),
+                           "how": "put the case line into a file and run .build/plain/harness/progress <file>",
+                           "theorems_affected": ["Libfive.C20.pool_ticks_complete", "Libfive.C20.pool_ticks_monotone_bounded",
+                                                 "Libfive.C20.pool_ticks_accounting"]},
+                          no_input=True)
+            continue
         rep.violation("model/implementation correspondence broken (stream C20.ticks): %s" % m[:300],
                       {"kind": "correspondence", "stream": "C20 tick accounting (LibfiveModel/Progress.lean)", "verdict": m,
                        "driver_input": drv_by_case.get(cid),
@@ -335,6 +421,18 @@ def run(rep, tier, seed, replay=None):
             "terminal_depths_seen": sorted({d for i in done for d in i["shape_stats"]["depths"]}),
             "single_cell_roots": sum(1 for i in done if i["shape_stats"]["branch"] == 0),
             "life_scenarios": len(lifes),
+            "pool_tick_tie": {
+                "controlled_renders": sum(1 for i in done if i.get("mode") == "controlled"),
+                "pool_traces_replayed": sum(1 for i in done if i.get("pool_replayed")),
+                "pool_tokens_replayed": sum(i.get("pool_tokens", 0) for i in done if i.get("pool_replayed")),
+                "tick_events_compared": sum(i.get("pool_ticks", 0) for i in done if i.get("pool_replayed")),
+                "verdicts_ok": sum(1 for v in verdicts if v.startswith("ok") and " poolticks" in v),
+                "verdicts_mismatch": sum(1 for v in mism if " poolticks" in v),
+                "traces_with_pruned_cells": sum(1 for i in done if i.get("pool_replayed") and i["shape_stats"]["terminal"] > 0 and i["shape_stats"]["branch"] > 0),
+                "workers": sorted({i["workers"] for i in done if i.get("pool_replayed")}),
+                "levels": sorted({i["level"] for i in done if i.get("pool_replayed") and i["level"] is not None}),
+                "dims": sorted({i["dim"] for i in done if i.get("pool_replayed")}),
+            },
         },
         "trace_refinement": {"traces": len(done), "events": sum(i["events"] for i in done), "mode": "free (seeded yields)"},
         "samples": lines[:2] + life[:2],
